@@ -4,6 +4,7 @@ import (
 	"bytes"
 	"encoding/json"
 	"fmt"
+	"io"
 	"math/rand"
 	"os"
 	"os/exec"
@@ -15,6 +16,7 @@ import (
 
 	"github.com/mimecast/dtail/verifharness/internal/mq"
 	"github.com/mimecast/dtail/verifharness/internal/vlib"
+	"golang.org/x/crypto/ssh"
 )
 
 // C06 — mapreduce accounts for every file of every server under any scheduling.
@@ -107,8 +109,9 @@ func c06Body(r *vlib.Run) int {
 		}
 	})
 	var absent sync.WaitGroup
-	absent.Add(1)
+	absent.Add(2)
 	go func() { defer absent.Done(); c06Absent(r) }()
+	go func() { defer absent.Done(); c06SlotsBusy(r) }()
 	c06Provoke(r)
 	c06LongRun(r)
 	c06PipeRuns(r)
@@ -203,7 +206,9 @@ func c06Run(r *vlib.Run, cf *c06Fleet, rng *rand.Rand, pi, run int, w2 bool, pro
 	if byGroup {
 		keyCol = "g"
 	}
-	query := fmt.Sprintf("from CONS select %s,count($line),sum(w) group by %s outfile %s", keyCol, keyCol, out)
+	// avg(w) is 1 for every group (every line has weight 1), however many
+	// partial results the group was merged from
+	query := fmt.Sprintf("from CONS select %s,count($line),sum(w),avg(w) group by %s outfile %s", keyCol, keyCol, out)
 	if rng.Intn(2) == 0 {
 		query += " interval 1"
 	}
@@ -279,14 +284,18 @@ func c06Run(r *vlib.Run, cf *c06Fleet, rng *rand.Rand, pi, run int, w2 bool, pro
 		"stderr": vlib.Trunc(string(res.Stderr), 1200), "events": vlib.Trunc(strings.Join(sig, ""), 400)}
 	got := map[string]int{}
 	gotSum := map[string]float64{}
+	badAvg := map[string]string{}
 	if b, err := os.ReadFile(out); err == nil {
 		_, rows := mq.ParseCSV(string(b))
 		for _, row := range rows {
-			if len(row) == 3 {
+			if len(row) == 4 {
 				c, _ := strconv.Atoi(row[1])
 				got[row[0]] += c
 				f, _ := strconv.ParseFloat(row[2], 64)
 				gotSum[row[0]] += f
+				if a, err := strconv.ParseFloat(row[3], 64); err != nil || a < 0.999 || a > 1.001 {
+					badAvg[row[0]] = row[3]
+				}
 			}
 		}
 		os.Remove(out)
@@ -316,6 +325,11 @@ func c06Run(r *vlib.Run, cf *c06Fleet, rng *rand.Rand, pi, run int, w2 bool, pro
 	}
 	r.Count("lines_accounted", totalGot)
 	r.Count("e2e_runs", 1)
+	if len(badAvg) > 0 {
+		detail["groups_whose_average_weight_is_not_1"] = badAvg
+		r.Violation("merged-partial-results-inconsistent", detail)
+		return
+	}
 	if len(deficit) == 0 && len(excess) == 0 && res.Exit == 0 && !res.Hung {
 		return
 	}
@@ -497,6 +511,82 @@ func c06PipeRuns(r *vlib.Run) {
 				"lines_in_result": total, "want": n, "error": fmt.Sprint(err), "stderr": vlib.Trunc(se.String(), 800)})
 		}
 	})
+}
+
+// c06SlotsBusy: every read slot of the server is held by another session (a
+// cat whose output is not read) when the mapreduce session arrives; all its
+// files - one glob, i.e. one read command - wait for a slot for more than a
+// second. The aggregator has to wait for the announced input: complete result.
+func c06SlotsBusy(r *vlib.Run) {
+	fl, err := startFleet(r, "c06busy", 1, map[string]interface{}{"MaxConcurrentCats": 1, "MaxConnections": 50}, nil, "error")
+	if err != nil {
+		r.Inconclusive("fleet-start")
+		return
+	}
+	defer fl.Stop()
+	var big bytes.Buffer
+	for k := 0; k < 120000; k++ {
+		fmt.Fprintf(&big, "%07d filler line of the session that holds the read slot 0123456789 abcdefghij\n", k)
+	}
+	blocker := fl.WriteFile(0, "busy/blocker.log", big.Bytes())
+	for run := 0; run < r.N(2, 10); run++ {
+		sub := fmt.Sprintf("busy%d", run)
+		total := 0
+		nFiles := 1 + run%3
+		for f := 0; f < nFiles; f++ {
+			var b bytes.Buffer
+			for q := 1; q <= 150+40*f; q++ {
+				b.WriteString(c06Line(fmt.Sprintf("f%d", f), 0, q) + "\n")
+				total++
+			}
+			fl.WriteFile(0, filepath.Join(sub, fmt.Sprintf("t%d.log", f)), b.Bytes())
+		}
+		// the blocker: takes the only slot and does not read its output
+		bc, _, _, bin, err := trySession(fl.Servers[0].Addr(), fl.User, []ssh.AuthMethod{ssh.PublicKeys(fl.Key.Signer)}, "")
+		if err != nil {
+			r.Inconclusive("blocker-session")
+			continue
+		}
+		io.WriteString(bin, encodeCommand("cat:plain=true "+blocker+" regex:noop "))
+		time.Sleep(400 * time.Millisecond)
+		release := time.AfterFunc(time.Duration(1200+300*run)*time.Millisecond, func() { bc.Close() })
+		out := filepath.Join(fl.Home, fmt.Sprintf("busy-%d.csv", run))
+		query := "from CONS select fid,count($line) group by fid outfile " + out
+		args := append(fl.ClientArgs(), "--logger", "stdout", "--logLevel", "error", "--noColor", "--files", filepath.Join(sub, "t*.log"), "--query", query)
+		res := vlib.RunCmd(vlib.Cmd{Path: r.Bin("dmap"), Args: args, Env: fl.ClientEnv(), Dir: fl.Home, Watchdog: 120 * time.Second})
+		release.Stop()
+		bc.Close()
+		got := 0
+		if b, err := os.ReadFile(out); err == nil {
+			_, rows := mq.ParseCSV(string(b))
+			for _, row := range rows {
+				if len(row) == 2 {
+					c, _ := strconv.Atoi(row[1])
+					got += c
+				}
+			}
+		}
+		os.Remove(out)
+		os.Remove(out + ".query")
+		os.RemoveAll(filepath.Join(fl.Servers[0].Spec.Dir, sub))
+		r.Eval(fmt.Sprintf("slots-busy|%d", run))
+		r.Count("runs_arriving_while_every_read_slot_is_held", 1)
+		r.Count("lines_accounted", got)
+		if res.TimedOut {
+			r.Inconclusive("dmap-watchdog")
+			continue
+		}
+		detail := map[string]interface{}{"scenario": "the server's only read slot is held by another session for more than a second when the mapreduce session (one glob) arrives",
+			"files": nFiles, "lines_in_result": got, "want": total, "hung": res.Hung, "exit": res.Exit}
+		switch {
+		case res.Hung:
+			r.Violation("dmap-did-not-terminate", detail)
+		case got != total:
+			r.Violation("files-queued-behind-the-limit-left-out", detail)
+		case res.Exit != 0:
+			r.Violation("exit-status", detail)
+		}
+	}
 }
 
 // c06Absent: servers on which the requested file does not exist (or the glob
